@@ -14,6 +14,8 @@ CONSTANTS
   AtomicCommit = TRUE
   SnapshotScan = TRUE
   Alias = {}
-INVARIANTS TypeOK ReadsLastCommitted ScansExactMembers IterSound
+  TrackTouch = FALSE
+  MisTag = {}
+INVARIANTS TypeOK ReadsLastCommitted ScansExactMembers IterSound ResultsIgnoreTouched OwnFamilyOnly
 PROPERTY OnlyCommitChanges
 CHECK_DEADLOCK FALSE
